@@ -1,0 +1,5 @@
+//go:build !verif
+
+package json
+
+func verifScanStep(any, byte, int, int) {}
